@@ -1,7 +1,8 @@
 (* ExchCheck.v — step-wise (re-synchronising) comparison of the exchange models with observed
    transitions of UistV1 / JuraV1. Each observed step carries the implementation's own pre-state. *)
 From Coq Require Import ZArith NArith List Bool String Floats.
-From Alator Require Import Model.Num Model.Quirks Model.Exchange Model.Uist Model.Jura Check.Eqb.
+From Alator Require Import Model.Num Model.Quirks Model.Sort Model.Exchange Model.Uist Model.Jura Check.Eqb
+  Check.SortCheck.
 Import ListNotations.
 
 Local Instance FN : Num float := FloatNum [].
@@ -15,6 +16,9 @@ Definition A_BOOK := 4%N.      (* resting book after the step *)
 Definition A_BUFFER := 5%N.
 Definition A_NEXTID := 6%N.
 Definition A_LOG := 7%N.
+Definition A_SORT := 8%N.      (* the admitted batch is exactly what Model/Sort.v's transcription of the standard
+                                  library's stable sort (insertion sort up to 20, driftsort above) makes of the
+                                  buffer with the exchange's first-argument-only comparator *)
 
 Definition otype_eqb (a b : otype) : bool :=
   match a, b with
@@ -68,6 +72,15 @@ Definition out_mask (m : out O T) (o : obs O T) : N :=
 
 End Generic.
 
+(* exact order of admission: [sz] is size_of::<Order>() as the harness observed it (it selects the scratch size and
+   small-sort path of driftsort) *)
+Definition sort_mask {O T} (oeq : O -> O -> bool) (sz : N) (is_sell : O -> bool) (pre : exch O T) (o : op O (quote float))
+  (ob : obs O T) : N :=
+  match o, ob with
+  | Tick _ _, ObsTick _ adm _ => bit A_SORT (std_perm_ok oeq sz is_sell (buffer pre) (map snd adm))
+  | _, _ => 0%N
+  end.
+
 Record ustep := mkUStep {
   us_pre : uexch float; us_op : uop float; us_obs : obs (uorder float) (trade float);
   us_post : uexch float }.
@@ -78,6 +91,9 @@ Definition ustep_mask (st : ustep) : N :=
   | ObsPanic => out_mask uorder_eqb trade_eqb o (us_obs st)   (* state after a panic is not compared *)
   | _ => N.lor (out_mask uorder_eqb trade_eqb o (us_obs st)) (exch_mask uorder_eqb trade_eqb m (us_post st))
   end.
+
+Definition ustep_mask_sz (sz : N) (st : ustep) : N :=
+  N.lor (ustep_mask st) (sort_mask uorder_eqb sz uist_is_sell (us_pre st) (us_op st) (us_obs st)).
 
 (* ---- Jura ---- *)
 
@@ -110,3 +126,6 @@ Definition jstep_mask (qk : quirks) (st : jstep) : N :=
   | ObsPanic => out_mask jorder_eqb fill_eqb o (js_obs st)
   | _ => N.lor (out_mask jorder_eqb fill_eqb o (js_obs st)) (exch_mask jorder_eqb fill_eqb m (js_post st))
   end.
+
+Definition jstep_mask_sz (qk : quirks) (sz : N) (st : jstep) : N :=
+  N.lor (jstep_mask qk st) (sort_mask jorder_eqb sz jura_is_sell (js_pre st) (js_op st) (js_obs st)).
